@@ -286,16 +286,11 @@ open_dump(kdump_ctx_t *ctx)
 	size_t nfiles = get_num_files(ctx);
 	struct attr_data *dir;
 	struct attr_data *mmap_attr;
+	struct flattened_map *flatmap;
+	struct fcache *fcache;
 	kdump_status ret;
 	int fdset[nfiles];
 	int i;
-
-	flatmap_free(ctx->shared->flatmap);
-	if (ctx->shared->fcache) {
-		for (i = 0; i < ARRAY_SIZE(fcache_attrs); ++i)
-			attr_embed_value(gattr(ctx, fcache_attrs[i]));
-		fcache_decref(ctx->shared->fcache);
-	}
 
 	for (dir = gattr(ctx, GKI_dir_file_set)->dir; dir; dir = dir->next) {
 		struct attr_data *child;
@@ -304,11 +299,30 @@ open_dump(kdump_ctx_t *ctx)
 			continue;
 		fdset[dir->template->fidx] = attr_value(child)->number;
 	}
-	ctx->shared->fcache = fcache_new(nfiles, fdset,
-					 FCACHE_SIZE, FCACHE_ORDER);
-	if (!ctx->shared->fcache)
+
+	/* Allocate the new file cache and flattened map before the old
+	 * ones are released, so a failure leaves the object untouched
+	 * (and no pointer to a released object behind).
+	 */
+	fcache = fcache_new(nfiles, fdset, FCACHE_SIZE, FCACHE_ORDER);
+	if (!fcache)
 		return set_error(ctx, KDUMP_ERR_SYSTEM,
 				 "Cannot allocate file cache");
+	flatmap = flatmap_alloc(nfiles);
+	if (!flatmap) {
+		fcache_decref(fcache);
+		return set_error(ctx, KDUMP_ERR_SYSTEM,
+				 "Cannot allocate %s", "flattened dump maps");
+	}
+
+	flatmap_free(ctx->shared->flatmap);
+	ctx->shared->flatmap = flatmap;
+	if (ctx->shared->fcache) {
+		for (i = 0; i < ARRAY_SIZE(fcache_attrs); ++i)
+			attr_embed_value(gattr(ctx, fcache_attrs[i]));
+		fcache_decref(ctx->shared->fcache);
+	}
+	ctx->shared->fcache = fcache;
 
 	mmap_attr = gattr(ctx, GKI_file_mmap_policy);
 	ctx->shared->fcache->mmap_policy = *attr_value(mmap_attr);
@@ -321,11 +335,6 @@ open_dump(kdump_ctx_t *ctx)
 	cache_set_attrs(ctx->shared->fcache->fbcache, ctx,
 			gattr(ctx, GKI_read_cache_hits),
 			gattr(ctx, GKI_read_cache_misses));
-
-	ctx->shared->flatmap = flatmap_alloc(nfiles);
-	if (!ctx->shared->flatmap)
-		return set_error(ctx, KDUMP_ERR_SYSTEM,
-				 "Cannot allocate %s", "flattened dump maps");
 
 	ret = flatmap_init(ctx->shared->flatmap, ctx);
 	if (ret != KDUMP_OK)
